@@ -169,6 +169,24 @@ def fam_xdg(tier):
             if sflag and not above:
                 cases.append(b.case(argv, tag=f"xdgmask{mask}:s:emptydirs:{'unset' if unset else ''}",
                                     dirs=[loc.rstrip("/") for loc in XDG_LOCS if loc.rstrip("/") not in ("@xdg",)]))
+    # a target that is not below the working directory is walked up to the root of the file system; without -s the
+    # user-level locations are still not consulted (and with -s they are)
+    for mask in (1, 2, 4, 8, 15):
+        for sflag in (False, True):
+            for shape in ("abs-file", "abs-dir", "stdin-filepath"):
+                b = Builder("xdg-home")
+                for i, loc in enumerate(XDG_LOCS):
+                    if mask >> i & 1:
+                        n += 1
+                        b.toml(None, path=loc + M.CONFIG_NAMES[n % 2])
+                b.lua("t0.lua")
+                b.k += 1
+                b.files["up1/elsewhere/lib/t9.lua"] = M.lua_probe(b.k)
+                out = M.ROOT_TOKEN + "/up1/elsewhere"
+                argv = {"abs-file": [out + "/lib/t9.lua", "t0.lua"], "abs-dir": [out], "stdin-filepath": ["--stdin-filepath", out + "/lib/zz.lua", "-"]}[shape]
+                c = b.case((["-s"] if sflag else []) + argv, stdin=M.lua_probe(905) if shape == "stdin-filepath" else None,
+                           tag=f"xdgmask{mask}:{'s' if sflag else '-'}:outside-cwd:{shape}")
+                cases.append(c)
     return cases
 
 
